@@ -107,3 +107,14 @@ package compact
 //@ func verifLemma_C11_latlngs
 //@   requires forall(j, 0, len(lls), 0 <= llPos(lls, j) && llPos(lls, j) + llLen(lls, j) <= len(buffer), llPos(lls, j))
 //@   falsify len(buffer) >= 20*len(lls)
+
+// ---- C01: from features to compact records (kernel) --------------------------------------
+// FromPathIDs copies every path ID into the polygon's reference list.
+//@ func (*NamespaceTable).Encode
+//@   trusted
+//@   function
+//@ func (*PolygonGeometryReferences).FromPathIDs
+//@   requires p != nil && nt != nil
+//@   modifies *p
+//@   loop 1 invariant rangeindex >= -1 && len(p.Paths) == rangeindex + 1
+//@   ensures len(p.Paths) == len(paths)
